@@ -117,6 +117,11 @@ func (h *Handler) SendDiscoverPacket(chAddr net.HardwareAddr, ciAddr netip.Addr,
 	if Logger.IsDebug() {
 		Logger.Msg("send discover packet").ByteArray("xid", xid).MAC("from", chAddr).IP("ciaddr", ciAddr).Write()
 	}
+	// the message is built in a recycled buffer: fields the caller leaves unset must not keep stale bytes
+	if !ciAddr.Is4() {
+		ciAddr = packet.IPv4zero
+	}
+	xid = mustXID(xid)
 	// Commond options seen on many dhcp clients
 	options := packet.DHCP4Options{}
 	if name != "" {
